@@ -341,6 +341,12 @@ func (c *client) connect1(ctx async.Context) (internalConn, status.Status) {
 
 	// Return if connected
 	if st.OK() {
+		// The connection may be closed already. Its onConnClosed could not start
+		// a new routine, because this one was still registered as connecting.
+		if c.mode == ClientMode_AutoConnect && c.conns.Load().len() == 0 && !c.closed_.IsSet() {
+			routine := async.Run(c.connect1)
+			c.connecting.Set(routine)
+		}
 		return conn, st
 	}
 
@@ -396,11 +402,14 @@ func (c *client) connectRecover(ctx async.Context) (_ internalConn, st status.St
 	if !st.OK() {
 		return nil, st
 	}
-	go c.handle(conn)
 
 	// Add connection
 	c.mu.Lock()
 	defer c.mu.Unlock()
+
+	// Run the connection under the lock, onConnClosed needs the lock,
+	// so it always finds the connection in the list, even when it fails at once.
+	go c.handle(conn)
 
 	if c.closed_.IsSet() {
 		conn.Close()
